@@ -39,7 +39,7 @@ deriving DecidableEq, Repr
 
 inductive Obj
   | file (c : Content)
-  | dir
+  | dir (mode : Nat)          -- permission bits: `remove_dir_recursively` opens a directory up (0o777) before emptying it
 deriving DecidableEq, Repr
 
 inductive Prim
@@ -58,7 +58,7 @@ inductive Val
   | unit
   | content (c : Content)
   | names (es : List (String × Bool))   -- directory entries: name, is a directory
-deriving Repr
+deriving DecidableEq, Repr
 
 inductive Probe
   | exists (p : Path)
@@ -80,7 +80,7 @@ deriving DecidableEq, Repr
 inductive Outcome
   | ok (v : Val)
   | err (e : Err)
-deriving Repr
+deriving DecidableEq, Repr
 
 def Outcome.isOk : Outcome → Bool
   | .ok _ => true
@@ -147,14 +147,18 @@ def exec {σ : Type} (S : Sem σ) (plan : Plan) (p : Prog) (s : σ) : Res σ := 
 
 abbrev FS := List (Path × Obj)
 
-def FS.get (fs : FS) (p : Path) : Option Obj := if p = [] then some .dir else fs.lookup p
-def FS.isDir (fs : FS) (p : Path) : Bool := match fs.get p with | some .dir => true | _ => false
+/-- mode of a freshly created directory (0o755) and of one opened up by `set_permissions` (0o777) -/
+def modeNew : Nat := 493
+def modeOpen : Nat := 511
+
+def FS.get (fs : FS) (p : Path) : Option Obj := if p = [] then some (.dir modeNew) else fs.lookup p
+def FS.isDir (fs : FS) (p : Path) : Bool := match fs.get p with | some (.dir _) => true | _ => false
 def FS.has (fs : FS) (p : Path) : Bool := (fs.get p).isSome
 def FS.erase (fs : FS) (p : Path) : FS := fs.filter (fun e => e.1 != p)
 def FS.set (fs : FS) (p : Path) (o : Obj) : FS := (p, o) :: fs.erase p
 /-- remove `p` and everything below it -/
 def FS.eraseTree (fs : FS) (p : Path) : FS := fs.filter (fun e => !(p.isPrefixOf e.1))
-def Obj.isDir : Obj → Bool | .dir => true | .file _ => false
+def Obj.isDir : Obj → Bool | .dir _ => true | .file _ => false
 
 /-- entries of directory `p`: (name, is a directory), sorted by name -/
 def FS.children (fs : FS) (p : Path) : List (String × Bool) :=
@@ -166,7 +170,7 @@ def FS.children (fs : FS) (p : Path) : List (String × Bool) :=
 /-- why a call on `p` cannot even reach `p` -/
 def FS.parentErr (fs : FS) (p : Path) : Option Errno :=
   match fs.get p.dropLast with
-  | some .dir => none
+  | some (.dir _) => none
   | some (.file _) => some .enotdir
   | none => some .enoent
 
@@ -175,15 +179,15 @@ def prefixes (p : Path) : List Path := (List.range p.length).map (fun i => p.tak
 def mkdirAllFs (fs : FS) (p : Path) : Except Errno FS :=
   (prefixes p).foldlM (fun (fs : FS) q =>
     match fs.get q with
-    | some .dir => pure fs
+    | some (.dir _) => pure fs
     | some (.file _) => throw (if q = p then Errno.eexist else Errno.enotdir)
-    | none => pure (fs.set q .dir)) fs
+    | none => pure (fs.set q (.dir modeNew))) fs
 
 def writeFs (fs : FS) (p : Path) (c : Content) : Except Errno FS :=
   match fs.parentErr p with
   | some e => throw e
   | none => match fs.get p with
-    | some .dir => throw .eisdir
+    | some (.dir _) => throw .eisdir
     | _ => pure (fs.set p (.file c))
 
 def fsExec : Prim → FS → Except Errno Val × FS
@@ -198,23 +202,26 @@ def fsExec : Prim → FS → Except Errno Val × FS
     | .error e => (.error e, fs)
   | .read p, fs => match fs.get p with
     | some (.file c) => (.ok (.content c), fs)
-    | some .dir => (.error .eisdir, fs)
+    | some (.dir _) => (.error .eisdir, fs)
     | none => (.error (match fs.parentErr p with | some .enotdir => .enotdir | _ => .enoent), fs)
   | .unlink p, fs => match fs.get p with
     | some (.file _) => (.ok .unit, fs.erase p)
-    | some .dir => (.error .eisdir, fs)
+    | some (.dir _) => (.error .eisdir, fs)
     | none => (.error (match fs.parentErr p with | some .enotdir => .enotdir | _ => .enoent), fs)
   | .rmdir p, fs => match fs.get p with
-    | some .dir => if (fs.children p).isEmpty then (.ok .unit, fs.erase p) else (.error .enotempty, fs)
+    | some (.dir _) => if (fs.children p).isEmpty then (.ok .unit, fs.erase p) else (.error .enotempty, fs)
     | some (.file _) => (.error .enotdir, fs)
     | none => (.error .enoent, fs)
   | .removeDirAll p, fs => match fs.get p with
-    | some .dir => (.ok .unit, fs.eraseTree p)
+    | some (.dir _) => (.ok .unit, fs.eraseTree p)
     | some (.file _) => (.error .enotdir, fs)
     | none => (.error .enoent, fs)
-  | .chmod p, fs => if fs.has p then (.ok .unit, fs) else (.error .enoent, fs)
+  | .chmod p, fs => match fs.get p with
+    | some (.dir _) => (.ok .unit, fs.set p (.dir modeOpen))
+    | some (.file _) => (.ok .unit, fs)
+    | none => (.error .enoent, fs)
   | .readDir p, fs => match fs.get p with
-    | some .dir => (.ok (.names (fs.children p)), fs)
+    | some (.dir _) => (.ok (.names (fs.children p)), fs)
     | some (.file _) => (.error .enotdir, fs)
     | none => (.error .enoent, fs)
 
@@ -506,6 +513,16 @@ def buildWrites (launch store : Bool) (buildSboms launchSboms : List (String × 
   (if store then fsWrite ["layers", "store.toml"] (.doc "store-new") else id) <|
   writeSboms "build" buildSboms <|
   writeSboms "launch" launchSboms unit
+
+/-- the calls the code deliberately wraps in not-found tolerance: the steps of `remove_dir_recursively`, `remove_file`
+(best-effort deletes), and reading the optional `store.toml` -/
+def Prim.isBestEffort : Prim → Bool
+  | .chmod _ => true
+  | .readDir _ => true
+  | .unlink _ => true
+  | .rmdir _ => true
+  | .read p => p == ["layers", "store.toml"]
+  | _ => false
 
 /-! ## What one primitive looks like at the libc level (for the tie to the real call trace)
 
